@@ -27,6 +27,17 @@ CHECKS = {
              "assumed within 1e-12 relative (checked on every sampled case, not proved).",
         technique="Lean 4 proof over translator-generated tables + differential correspondence",
         design="§6 C06"),
+    "C12": dict(
+        text="Lean theorems: key tables of every *_from_dict / *_to_dict / __init__ (regenerated from the sources on every run): "
+             "emitted keys accepted and canonical, every constructor parameter written and wired back, alias groups disjoint, "
+             "documented defaults and aliases; generic dictionary reader/writer model with round-trip, re-serialisation, alias "
+             "interchangeability, omitted-key defaults and path theorems. Tie: translator group DictKeys + correspondence "
+             "(model reader/writer vs real readers/writers) + field-by-field SI oracle on the real code through dictionaries, "
+             "JSON text and save/load files (multi-file layouts, external arrays, absolute/relative paths).",
+        note="Lean kernel + {propext, Classical.choice, Quot.sound}; translator; correspondence harness; json / numpy / float repr / "
+             "file system trusted; quantity float token and equation text are tokens carrying their value (C18/C19).",
+        technique="Lean 4 proof over translator-generated key tables + generic field-schema interpreter + differential correspondence",
+        design="§6 C12"),
     "C18": dict(
         text="Lean theorems about the executable model of parse_units / parse_unitvalue / Units.__str__ / UnitValue.__str__ / "
              "Units.__eq__ (tables and text-pipeline constants regenerated from units.py on every run): print->parse round trip "
